@@ -13,9 +13,39 @@ def hexs(b):
     return bytes(b).hex() if b else "-"
 
 
+def forge(prefix, target):
+    """four octets X with crc32(prefix + X) == target (CRC-32 is affine in X: solve the 32x32 system over GF(2))"""
+    base = zlib.crc32(prefix + bytes(4)) & 0xffffffff
+    cols = [(zlib.crc32(prefix + (1 << i).to_bytes(4, "little")) & 0xffffffff) ^ base for i in range(32)]
+    want = target ^ base
+    rows = [[(cols[j] >> i) & 1 for j in range(32)] + [(want >> i) & 1] for i in range(32)]
+    r = 0
+    piv = []
+    for c in range(32):
+        p = next((k for k in range(r, 32) if rows[k][c]), None)
+        if p is None:
+            continue
+        rows[r], rows[p] = rows[p], rows[r]
+        for k in range(32):
+            if k != r and rows[k][c]:
+                rows[k] = [a ^ b for a, b in zip(rows[k], rows[r])]
+        piv.append(c)
+        r += 1
+    x = 0
+    for k, c in enumerate(piv):
+        if rows[k][32]:
+            x |= 1 << c
+    out = prefix + x.to_bytes(4, "little")
+    assert zlib.crc32(out) & 0xffffffff == target
+    return out
+
+
+SENTINELS = [0x00000000, 0xffffffff, 0x00000001, 0x80000000, 0x7fffffff, 0xfffffffe, 0x0000ffff, 0xffff0000, 0x000000ff, 0xff000000, 0xdeadbeef, 0x12345678]
+
+
 def check(ctx):
     ctx.rule = ("all byte strings of length 0..2 (exhaustive, 65 793 strings), the single-bit basis of lengths up to %s, seeded random strings up to 65 535 bytes; "
-                "a size ladder (frames of 252..261, 65531..65544, 70000, 131071..131076 octets: valid, one bit flipped, and valid only if the covered length wrapped at 8 or 16 bits); valid frames (payload + computed FCS), every single-bit flip of them and burst errors up to 32 bits, every length 0..8; each buffer exact-size under ASan; "
+                "frames forged so that their true FCS is 00000000, FFFFFFFF and ten other sentinel-like values (valid, and the same trailer on a corrupted body); a size ladder (frames of 252..261, 65531..65544, 70000, 131071..131076 octets: valid, one bit flipped, and valid only if the covered length wrapped at 8 or 16 bits); valid frames (payload + computed FCS), every single-bit flip of them and burst errors up to 32 bits, every length 0..8; each buffer exact-size under ASan; "
                 "the harness also prints an independent table-driven CRC; Python cross-checks zlib.crc32; distinct = (op, output)" % ("2304" if ctx.tier == "thorough" else "160 and selected lengths to 2304"))
     r = fw.prepare(ctx, MODULE)
     if r is None:
@@ -84,6 +114,19 @@ def check(ctx):
         for _ in range(20):
             fl.append("crc " + hexs(bytes(rnd.getrandbits(8) for _ in range(L))))
     fw.run_suite(ctx, exe, "S-crc/frames", fl, "FCS verification")
+    # frames whose true FCS is a value a program might treat as "no FCS" or "error": every sentinel is also a legitimate
+    # checksum (the body is forged so that its CRC-32 is the sentinel); the same trailer on a body it does not belong to
+    sl = ["crc ffffffffffffffff", "crc ffffffff"]
+    for t in SENTINELS:
+        for L in (0, 1, 10, 24, 100):
+            body = forge(bytes(rnd.getrandbits(8) for _ in range(L)), t)
+            fcs = t.to_bytes(4, "little")
+            sl.append("crc " + hexs(body + fcs))
+            sl.append("crc " + hexs(body))
+            other = bytearray(body)
+            other[rnd.randrange(len(other))] ^= 1 << rnd.randrange(8)
+            sl.append("crc " + hexs(bytes(other) + fcs))
+    fw.run_suite(ctx, exe, "S-crc/sentinel-fcs", sl, "FCS verification of frames whose checksum is a sentinel-like value")
     # the size ladder: frames at and around every width a length could be narrowed to (8, 16 and 17 bits), valid, with one
     # bit flipped, and "valid only when the covered length wraps": the first ((L-4) mod 2^k) octets followed by THEIR FCS
     ladder = []
